@@ -351,7 +351,8 @@ def run_args(inv: dict) -> T.Tuple[T.List[str], T.Dict[str, str]]:
         args += ['--repeat', str(inv['repeat'])]
     if inv['maxfail']:
         args += ['--maxfail', str(inv['maxfail'])]
-    args += ['-t', str(inv['tmul'])]
+    if inv['tmul'] is not None:
+        args += ['-t', str(inv['tmul'])]
     for fl in inv['flags']:
         args.append(fl)
     return args, env
@@ -654,6 +655,12 @@ def check_partition(tests: T.List[dict], inv: dict, n: int, bld: str, ev: T.Opti
 def check_case(case: dict, work: str, ev: T.Optional[Evidence]) -> T.Optional[Failure]:
     """case = {'tests': [...], 'invs': [...]} (or 'inv': {...})."""
     tests = [gen_exclusions(norm_test(t, i), ev) for i, t in enumerate(case['tests'])]
+    has_hang = any(t['mode'] in ('hang', 'hangstub') for t in tests)
+    if has_hang:
+        # -t 0.25..0.4 is used to make the hangers cheap; every other test then needs a limit that a loaded
+        # machine cannot reach (300 s x 0.25), or none at all
+        tests = [t if t['mode'] in ('hang', 'hangstub') or (t['timeout'] is not None and (t['timeout'] <= 0 or t['timeout'] >= 300))
+                 else dict(t, timeout=300) for t in tests]
     names = [t['name'] for t in tests]
     if len(set(names)) != len(names) or not tests:
         raise HarnessError('bad case: empty or duplicate test names')
@@ -662,6 +669,8 @@ def check_case(case: dict, work: str, ev: T.Optional[Evidence]) -> T.Optional[Fa
     try:
         for k, inv0 in enumerate(invs):
             inv = norm_inv(inv0, tests, ev)
+            if not has_hang and inv['tmul'] is not None and inv['tmul'] < 1:
+                inv['tmul'] = None if inv0.get('no_t') else inv['tmul'] * 10
             if not inv.get('list_only'):
                 f = check_invocation(tests, inv, bld, work, ev, str(k))
                 if f is not None:
@@ -750,6 +759,7 @@ def case_strategy(max_tests: int, max_invs: int):
         inv['names'] = draw(st.one_of(st.just([]), st.just([]), st.just([]), st.lists(pats, min_size=1, max_size=3, unique=True)))
         inv['setup'] = draw(st.sampled_from([None, None, None, 'su1', 'su2']))
         inv['tmul'] = draw(st.sampled_from([0.25, 0.3, 0.4]))
+        inv['no_t'] = draw(st.booleans())
         inv['flags'] = draw(st.lists(st.sampled_from(['--print-errorlogs', '--quiet', '--verbose', '--no-stdsplit']), max_size=2, unique=True))
         if draw(st.integers(0, 4)) == 0:
             n = draw(st.integers(1, 4))
